@@ -231,6 +231,7 @@ func genC06(r *core.Rand, run int) *MuxScenario {
 	}
 	if tr.proto == "http" && tr.codec == "json" && r.Chance(1, 3) {
 		sp.Sep = r.PickS("\n", " ", "\r\n")
+		sp.SepEnd = r.Chance(1, 2)
 		// the JSON stream codec counts separator bytes towards the limit
 		max := payloadSizeFor(mi, tr.codec, limit-len(sp.Sep))
 		for i := range sp.Msgs {
